@@ -149,6 +149,13 @@ Definition spec_step (d : deviations) (s : st) (o : op) : st * list obs :=
   match o with
   | Msg p k m => let '(s1, evs) := spec_msg d s p k m in (s1, OSnap s1 :: evs)
   | RegAdd p kd a fid => let '(s1, ok) := reg_add s p kd a fid in (s1, [OSnap s1; ORes ok])
+  | MsgDuring p k m p' kd a fid =>
+      (* another peer's request call delivered while the entities of p go: it is served after the
+         removal; afterwards the registries are the cascade's result plus that entry — nothing of
+         the other peer is lost, nothing else is touched *)
+      let '(s1, evs) := spec_msg d s p k m in
+      let '(s2, ok) := call_after s1 p p' kd a fid in
+      (s2, OSnap s2 :: evs ++ [ORes ok])
   end.
 
 (* ---- boolean equalities *)
@@ -226,9 +233,10 @@ Definition acts (o : op) (i : N) : bool :=
   match o with
   | Msg p _ _ => N.eqb p i
   | RegAdd _ _ _ _ => false
+  | MsgDuring p _ _ _ _ _ _ => N.eqb p i
   end.
 
-Definition is_msg (o : op) : bool := match o with Msg _ _ _ => true | _ => false end.
+Definition is_msg (o : op) : bool := match o with RegAdd _ _ _ _ => false | _ => true end.
 
 (* compare what was reported with what had to be reported *)
 Definition judge_out (o : op) (expected actual : list obs) : verdict :=
